@@ -435,6 +435,13 @@ func Check(env *core.Env, rep *core.Report) *core.Result {
 		if c.nv == 2 {
 			p.Variations = []map[string]string{{"VV": "1"}, {"VV": "2"}}
 		}
+		// every third producer has before and after hooks that print: what hooks write is not the
+		// task's output (the captured output is what its COMMANDS wrote to standard output)
+		hooked := i%3 == 1
+		if hooked {
+			p.Before = []string{"echo before-hook-says-something; echo and-on-stderr >&2"}
+			p.After = []string{"echo after-hook-says-something"}
+		}
 		outf := filepath.Join(env.Sub("c11o"), "seen")
 		cons := task.FromCommands(fmt.Sprintf(`printf %%s "$PROD_OUTPUT" > %s`, outf))
 		cons.Name = "cons"
@@ -454,7 +461,7 @@ func Check(env *core.Env, rep *core.Report) *core.Result {
 				prev = string(perCmdAll[j])
 			}
 		}
-		desc := fmt.Sprintf("[commands %v to %v, %d variation(s), output format %s, interactive=%v, first command fails (allowed)=%v]", c.pay, c.to, c.nv, c.format, p.Interactive, p.AllowFailure)
+		desc := fmt.Sprintf("[commands %v to %v, %d variation(s), output format %s, interactive=%v, first command fails (allowed)=%v, printing before/after hooks=%v]", c.pay, c.to, c.nv, c.format, p.Interactive, p.AllowFailure, hooked)
 		if p.Output() != string(want) {
 			add("capture:task-output-differs", fmt.Sprintf("Task.Output() has %d bytes, the commands wrote %d bytes to stdout %s", len(p.Output()), len(want), desc), map[string]interface{}{"case": c, "got_prefix": clip(p.Output()), "want_prefix": clip(string(want))})
 		}
@@ -468,7 +475,7 @@ func Check(env *core.Env, rep *core.Report) *core.Result {
 		if b, _ := ioutil.ReadFile(outf); string(b) != string(want) {
 			add("handover:dependant-prints-different-bytes", fmt.Sprintf("the dependant printed %d bytes for \"$PROD_OUTPUT\", expected %d %s", len(b), len(want), desc), map[string]interface{}{"case": c})
 		}
-		if strings.Join(outs, "\x00") != strings.Join(chain, "\x00") {
+		if !hooked && strings.Join(outs, "\x00") != strings.Join(chain, "\x00") {
 			add("chain:dot-output-is-not-previous-command", fmt.Sprintf(".Output seen by the commands %q, expected %q %s", clipAll(outs), clipAll(chain), desc), c)
 		}
 		if i%41 == 0 {
